@@ -27,6 +27,14 @@ var Root = func() string {
 	return "/verif"
 }()
 
+// Out is where evidence/, results/ and replays/ are written (default: Root).
+var Out = func() string {
+	if v := os.Getenv("VERIF_OUT"); v != "" {
+		return v
+	}
+	return Root
+}()
+
 // Case is one replayable execution: the scenario name selects the function
 // that re-executes it and Params is whatever that function needs.
 type Case struct {
@@ -86,6 +94,10 @@ type Run struct {
 	traces     int64
 	Rule       string
 	exhaustive bool
+	maxCase    map[string]float64
+	// OnlyWhat/OnlyIndex restrict Parallel enumerations to one case (replay of an IndexCase)
+	OnlyWhat  string
+	OnlyIndex int
 }
 
 type busyInfo struct {
@@ -99,7 +111,7 @@ func NewRun(id, tier string, seed int64, level string) *Run {
 		Workers: runtime.NumCPU(), violSig: map[string]int{}, known: map[string]Finding{},
 		knownHit: map[string]int{}, outcomes: map[uint64]struct{}{}, nontrivial: map[uint64]struct{}{},
 		counters: map[string]int64{}, extra: map[string]interface{}{},
-		states: map[string]struct{}{}, trans: map[string]struct{}{}, exhaustive: true}
+		states: map[string]struct{}{}, trans: map[string]struct{}{}, exhaustive: true, maxCase: map[string]float64{}}
 	if r.Workers > 16 {
 		r.Workers = 16
 	}
@@ -306,7 +318,7 @@ func trimStack(s string) string {
 	lines := strings.Split(s, "\n")
 	var out []string
 	for _, l := range lines {
-		if strings.Contains(l, "/repo/") || strings.Contains(l, "ulikunitz") {
+		if strings.Contains(l, "/repo/") || strings.Contains(l, "ulikunitz") || (os.Getenv("VERIF_REPO") != "" && strings.Contains(l, os.Getenv("VERIF_REPO")+"/")) {
 			out = append(out, strings.TrimSpace(l))
 			if len(out) >= 8 {
 				break
@@ -333,6 +345,26 @@ func (p *PanicInfo) Site() string {
 	}
 	return "unknown"
 }
+
+// IndexCase identifies one case of a Parallel enumeration by its position (the enumerations are
+// deterministic); `vcheck replay` re-runs the check restricted to that index.
+type IndexCase struct {
+	What  string
+	Index int
+	Tier  string
+}
+
+// StallLimit is the time after which a single case counts as stalled (the slowest legitimate
+// case takes well under a tenth of it; the measured maximum is recorded in the evidence).
+var StallLimit = func() time.Duration {
+	if v := os.Getenv("VERIF_STALL_S"); v != "" {
+		var s float64
+		if _, err := fmt.Sscan(v, &s); err == nil && s > 0 {
+			return time.Duration(s * float64(time.Second))
+		}
+	}
+	return 300 * time.Second
+}()
 
 // Parallel runs f(i) for i in [0,n) on the worker pool. Each worker announces the
 // case it is about to run so that the watchdog can name a stuck case. f must do
@@ -363,7 +395,22 @@ func (r *Run) Parallel(n int, what string, f func(i int)) {
 					r.Count("skipped_after_deadline:"+what, int64(n-i))
 					return
 				}
+				if r.OnlyWhat != "" && (r.OnlyWhat != what || r.OnlyIndex != i) {
+					continue
+				}
+				// generic stall guard: a case that does not return is a violation of the
+				// property under test (no call blocks forever), reported with its index
+				id := r.BeginLimit(MkCase(r.ID, "index", IndexCase{What: what, Index: i, Tier: r.Tier}), "stall: a case of \""+what+"\" did not return", StallLimit)
+				t0 := time.Now()
 				f(i)
+				r.End(id)
+				if d := time.Since(t0).Seconds(); d > 1 {
+					r.mu.Lock()
+					if d > r.maxCase[what] {
+						r.maxCase[what] = d
+					}
+					r.mu.Unlock()
+				}
 			}
 		}(k)
 	}
@@ -397,8 +444,8 @@ func (r *Run) Finish() int {
 	r.mu.Lock()
 	defer r.mu.Unlock()
 	wall := time.Since(r.Start).Seconds()
-	os.MkdirAll(filepath.Join(Root, "replays"), 0o755)
-	os.MkdirAll(filepath.Join(Root, "evidence"), 0o755)
+	os.MkdirAll(filepath.Join(Out, "replays"), 0o755)
+	os.MkdirAll(filepath.Join(Out, "evidence"), 0o755)
 	keys := make([]string, 0, len(r.knownHit))
 	for k := range r.knownHit {
 		keys = append(keys, k)
@@ -411,7 +458,7 @@ func (r *Run) Finish() int {
 	for _, v := range r.viol {
 		b, _ := json.MarshalIndent(v, "", " ")
 		h := sha256.Sum256(b)
-		p := filepath.Join(Root, "replays", fmt.Sprintf("%s-%x.json", v.Property, h[:6]))
+		p := filepath.Join(Out, "replays", fmt.Sprintf("%s-%x.json", v.Property, h[:6]))
 		os.WriteFile(p, b, 0o644)
 		fmt.Printf("VIOLATION property=%s replay=%s\n", v.Property, p)
 		fmt.Printf("  signature: %s\n  %s\n  observed: %s\n  expected: %s\n  (%d cases with this signature)\n",
@@ -446,6 +493,10 @@ func (r *Run) Finish() int {
 	if len(r.notes) > 0 {
 		cov["notes"] = r.notes
 	}
+	if len(r.maxCase) > 0 {
+		cov["slowest_case_seconds"] = r.maxCase
+		cov["stall_limit_seconds"] = StallLimit.Seconds()
+	}
 	if r.Level == "model_checking" {
 		cov["states"] = len(r.states)
 		cov["transitions"] = len(r.trans)
@@ -473,10 +524,13 @@ func (r *Run) Finish() int {
 		ev["assumptions"] = []string{}
 	}
 	b, _ := json.MarshalIndent(ev, "", " ")
-	if err := os.WriteFile(filepath.Join(Root, "evidence", r.ID+".json"), b, 0o644); err != nil {
+	if err := os.WriteFile(filepath.Join(Out, "evidence", r.ID+".json"), b, 0o644); err != nil {
 		fmt.Fprintln(os.Stderr, "evidence:", err)
 		return 2
 	}
+	// a per-tier copy for the bounds table of DESIGN.md (the evidence file holds the last run only)
+	os.MkdirAll(filepath.Join(Out, "results"), 0o755)
+	os.WriteFile(filepath.Join(Out, "results", r.ID+"."+r.Tier+".json"), b, 0o644)
 	fmt.Printf("%s %s: evaluations=%d distinct_outcomes=%d nontrivial=%d states=%d transitions=%d traces=%d exhaustive=%v violations=%d known=%d wall=%.1fs\n",
 		r.ID, r.Tier, r.evals, len(r.outcomes), dn, len(r.states), len(r.trans), r.traces, r.exhaustive, len(r.viol), len(keys), wall)
 	for _, c := range r.capsHit {
@@ -502,6 +556,7 @@ type openCase struct {
 	c     Case
 	since time.Time
 	sig   string
+	limit time.Duration
 }
 
 var (
@@ -513,7 +568,10 @@ var (
 )
 
 // Begin registers a running case with the watchdog.
-func (r *Run) Begin(c Case, stallSig string) int64 {
+func (r *Run) Begin(c Case, stallSig string) int64 { return r.BeginLimit(c, stallSig, wdLimit) }
+
+// BeginLimit is Begin with an explicit limit.
+func (r *Run) BeginLimit(c Case, stallSig string, limit time.Duration) int64 {
 	wdOnce.Do(func() {
 		go func() {
 			for {
@@ -521,14 +579,14 @@ func (r *Run) Begin(c Case, stallSig string) int64 {
 				wdMu.Lock()
 				var stuck *openCase
 				for _, oc := range wdOpen {
-					if time.Since(oc.since) > wdLimit {
+					if time.Since(oc.since) > oc.limit {
 						stuck = oc
 						break
 					}
 				}
 				wdMu.Unlock()
 				if stuck != nil {
-					r.Violate(stuck.c, stuck.sig, fmt.Sprintf("call did not return within %v (stall watchdog)", wdLimit), "stall", "every Read returns in bounded time")
+					r.Violate(stuck.c, stuck.sig, fmt.Sprintf("call did not return within %v (stall watchdog)", stuck.limit), "stall", "every call returns in bounded time")
 					code := r.Finish()
 					if code == 0 {
 						code = 1
@@ -541,7 +599,7 @@ func (r *Run) Begin(c Case, stallSig string) int64 {
 	wdMu.Lock()
 	wdNext++
 	id := wdNext
-	wdOpen[id] = &openCase{c: c, since: time.Now(), sig: stallSig}
+	wdOpen[id] = &openCase{c: c, since: time.Now(), sig: stallSig, limit: limit}
 	wdMu.Unlock()
 	return id
 }
